@@ -283,7 +283,8 @@ close_format(kdump_ctx_t *ctx)
 		/* cache.hits and cache.misses live in the cache */
 		attr_embed_value(gattr(ctx, GKI_cache_hits));
 		attr_embed_value(gattr(ctx, GKI_cache_misses));
-		cache_free(ctx->shared->cache);
+		/* pages may still be held by libaddrxlat */
+		cache_release(ctx->shared->cache);
 		ctx->shared->cache = NULL;
 	}
 	clear_volatile_attrs(ctx);
